@@ -6,7 +6,7 @@ from ..core import rule
 from ..index import AnalysisError, dotted, src, walk_no_nested, names_in
 from ..cfg import CFG, const_env_step, eval3, UNK, OTHER
 from ..domains import linform, Lin
-from ..util import node_calls, own_expr, last_name, calls_named, assigned_names, returned_names, is_call_to, enclosing_loops, loop_targets
+from ..util import reach_expr, pred_is, node_calls, own_expr, last_name, calls_named, assigned_names, returned_names, is_call_to, enclosing_loops, loop_targets
 from .slots import LOADER, BASEDEMUX, FQITER, FQHANDLE, HANDLELIM, P
 
 DEMUX = P + 'modularDemultiplexer/demux.py'
@@ -431,26 +431,36 @@ def r6(ctx):
                        'counter is the number of pairs read; the driver closes both handles')
 def r7(ctx):
     f, outer, inner = loader_loops(ctx)
-    brk = [s for s in outer.body if isinstance(s, ast.If) and any(isinstance(x, ast.Break) for x in s.body)]
-    ok = len(brk) == 1 and outer.body.index(brk[0]) > outer.body.index(inner) and 'maxReadPairs' in src(brk[0].test) and \
-        not any(isinstance(x, ast.Break) for x in walk_no_nested(inner))
-    ctx.emit('C01-R7', ok, LOADER, brk[0] if brk else outer, 'cut-off `break` sits in the read loop after the per-strategy loop' if ok else 'cut-off is not placed after the per-strategy loop', key='cutoff-placement')
-    if brk:
-        from ..domains import check_pred
-        t = brk[0].test
-        try:
-            pc = processed_counter(f)
-            ncase, bad = check_pred(t, lambda e: e['max'] and e['n'] >= e['m'], symbols=['n', 'm'],
-                                    atom_name=lambda x: {pc: 'n', 'maxReadPairs': 'm', 'maxReadPairs is not None': 'max'}.get(src(x)), extra_bools=['max'])
-            ctx.emit('C01-R7', not bad, LOADER, brk[0], f'cut-off predicate `{src(t)}` == (limit given and processed >= limit) over {ncase} cases' if not bad else f'cut-off predicate differs: {bad[0]}', key='cutoff-predicate')
-        except AnalysisError as ex:
-            ctx.emit('C01-R7', False, LOADER, brk[0], f'cut-off predicate not interpretable: {ex}', key='cutoff-predicate', undecided=True)
+    # the cut-off: a `break` of the read loop (not inside the per-strategy loop); its reach condition within one iteration must be
+    # "a limit is given and processed >= limit", and it must come after the per-strategy loop
+    brks = [x for st in outer.body if st is not inner for x in walk_no_nested(st) if isinstance(x, ast.Break)]
+    inner_brk = any(isinstance(x, ast.Break) for x in walk_no_nested(inner))
+    top = [st for st in outer.body if brks and any(x is brks[0] for x in ast.walk(st))]
+    ok = len(brks) == 1 and bool(top) and outer.body.index(top[0]) > outer.body.index(inner) and not inner_brk
+    ctx.emit('C01-R7', ok, LOADER, brks[0] if brks else outer, 'cut-off `break` sits in the read loop after the per-strategy loop' if ok else 'cut-off is not placed after the per-strategy loop', key='cutoff-placement')
     pc = processed_counter(f)
-    cnt = [s for s in outer.body if isinstance(s, ast.Assign) and src(s.targets[0]) == pc]
-    en = isinstance(outer.iter, ast.Call) and dotted(outer.iter.func) == 'enumerate'
-    idx = outer.target.elts[0].id if isinstance(outer.target, ast.Tuple) else None
-    ok = en and len(cnt) == 1 and linform(cnt[0].value) == Lin({idx: 1}, 1) and outer.body.index(cnt[0]) < outer.body.index(inner)
-    ctx.emit('C01-R7', ok, LOADER, cnt[0] if cnt else outer, f'processed counter `{pc}` = {src(cnt[0].value) if cnt else None} at the top of each iteration', key='processed-counter')
+    if len(brks) == 1:
+        t = reach_expr(outer.body[outer.body.index(inner) + 1:], brks[0])
+        okp = t is not None and pred_is(t, lambda e: e['max'] and e['n'] >= e['m'], {pc: 'n', 'maxReadPairs': 'm', 'maxReadPairs is not None': 'max', 'maxReadPairs is None': 'nomax'}, bools=['max'])
+        if t is not None and not okp:
+            # spelled with `is None`
+            okp = pred_is(t, lambda e: (not e['nomax']) and e['n'] >= e['m'], {pc: 'n', 'maxReadPairs': 'm', 'maxReadPairs is None': 'nomax'}, bools=['nomax'])
+        ctx.emit('C01-R7', okp, LOADER, brks[0], f'cut-off condition `{src(t) if t is not None else None}` ' + ('== (limit given and processed >= limit)' if okp else 'differs from (limit given and processed >= limit)'), key='cutoff-predicate')
+    # the processed counter counts the pairs read: before the per-strategy loop either `pc = <enumerate index> + 1` or `pc += 1` (initialised 0)
+    before = outer.body[:outer.body.index(inner)]
+    cnt = [s for s in before if isinstance(s, (ast.Assign, ast.AugAssign)) and src(s.targets[0] if isinstance(s, ast.Assign) else s.target) == pc]
+    others = [s for s in walk_no_nested(outer) if isinstance(s, (ast.Assign, ast.AugAssign)) and src(s.targets[0] if isinstance(s, ast.Assign) else s.target) == pc and s not in cnt]
+    ok = False
+    if len(cnt) == 1 and not others:
+        c0 = cnt[0]
+        if isinstance(c0, ast.Assign):
+            en = isinstance(outer.iter, ast.Call) and dotted(outer.iter.func) == 'enumerate' and len(outer.iter.args) == 1 and not outer.iter.keywords
+            idx = outer.target.elts[0].id if isinstance(outer.target, ast.Tuple) and isinstance(outer.target.elts[0], ast.Name) else None
+            ok = en and idx is not None and linform(c0.value) == Lin({idx: 1}, 1)
+        else:
+            init = [s for s in f.body if isinstance(s, ast.Assign) and src(s.targets[0]) == pc and isinstance(s.value, ast.Constant) and s.value.value == 0 and s.lineno < outer.lineno]
+            ok = isinstance(c0.op, ast.Add) and isinstance(c0.value, ast.Constant) and c0.value.value == 1 and len(init) == 1
+    ctx.emit('C01-R7', ok, LOADER, cnt[0] if cnt else outer, f'processed counter `{pc}` is advanced once per pair before the strategies run ({src(cnt[0]) if cnt else None})', key='processed-counter')
     if ctx.ix.exists(DEMUX):
         m = ctx.ix.module(DEMUX)
         closes = [src(c.func) for c in ast.walk(m.tree) if isinstance(c, ast.Call) and isinstance(c.func, ast.Attribute) and c.func.attr == 'close']
